@@ -56,6 +56,16 @@ def phaseOK (o : Obs) (panics : Nat) (rets : List (Nat × Int)) (alive : List Na
    | some b => b.kind != .rr || evenCounts o.polls.length (rets.map fun r => r.2.toNat)
    | none => false)
 
+/-- end of a phase in which `inits` of the callers went through `netpoll.Initialize()` – one `Pick` whose result is
+dropped – and `picks` called `Pick`: as `phaseOK` (nobody panicked, every `Pick` returned an open member of the slice whose
+loop answered, the pool is sized, no other poller is open), except that evenness is not judged: the dropped picks took
+round-robin slots the harness cannot see.  Every `Pick` returned: `rets` has `picks` entries. -/
+def phaseInitOK (o : Obs) (panics picks : Nat) (rets : List (Nat × Int)) (alive : List Nat) : Bool :=
+  panics == 0 && o.status == 2 && o.sized && rets.length == picks &&
+  rets.all (fun r => o.retOK r.1 r.2 && alive.contains r.1) &&
+  o.polls.all (fun id => alive.contains id) &&
+  o.closed.all (fun id => !alive.contains id) && o.bal.isSome
+
 /-- the observation the harness would make of a model state -/
 def S.obs (s : S) : Obs :=
   { status := s.status, numLoops := s.numLoops, polls := s.polls, bal := s.bal,
